@@ -188,14 +188,16 @@ Definition obs_next_seq (st : alist bytes) (s d : bytes) : option N :=
   end.
 
 (** the sends that persisted in a step: expected effect on the nextSequenceSend and commitments families *)
-Fixpoint expect_sends (o : oracles) (name : bytes) (st : alist bytes) (l : list (packet * bool)) : option (alist bytes) :=
+Fixpoint expect_sends (o : oracles) (name : bytes) (clients : alist ctype) (st : alist bytes) (l : list (packet * bool))
+  : option (alist bytes) :=
   match l with
   | [] => Some st
   | (p, _) :: l' =>
       match obs_next_seq st (p_src p) (p_dst p), t_pack o p with
       | Some n, Some bz =>
-          if bytes_eqb (p_src p) name && (p_seq p =? n) && negb (n =? 0)
-          then expect_sends o name
+          (* from this chain, to a chain with a client, carrying exactly the counter, well-formed *)
+          if bytes_eqb (p_src p) name && (p_seq p =? n) && negb (n =? 0) && ahas (p_dst p) clients && validate_basic p
+          then expect_sends o name clients
                  (aset (c_commitment_key (p_src p) (p_dst p) (p_seq p)) (t_sha o bz)
                     (aset (c_nextseq_key (p_src p) (p_dst p)) (be64 (add64 n 1)) st)) l'
           else None
@@ -217,6 +219,7 @@ Definition fails (b : bool) (k : nat) : list nat := if b then [] else [k].
     11 a (src,dst,seq) triple accepted twice                                   C01
     12 a rejected message changed state                                        C01 C02 C04
     20 a receipt disappeared or changed                                        C01
+    21 an accepted receive did not write the (previously absent) receipt of its triple   C01
     13 nextSequenceSend family / new commitments not explained by the sends of this step (gap, repeat, wrong hash,
        counter moved without a send)                                           C04
     14 packet contract counter differs from the chain-side counter            C04
@@ -240,7 +243,7 @@ Definition mon_step (o : oracles) (m : mchain) (st : ostep) : list nat * mchain 
   (* C04: expected nextSequenceSend family and commitments written *)
   let sends := if accepted then persisted_sends (os_act st) else [] in
   let k13 :=
-    match expect_sends o (m_name m) before sends with
+    match expect_sends o (m_name m) (m_clients m) before sends with
     | None => [13%nat]
     | Some ex =>
         fails (store_eqb (family (B "nextSequenceSend/") ex) (family (B "nextSequenceSend/") after)
@@ -259,6 +262,9 @@ Definition mon_step (o : oracles) (m : mchain) (st : ostep) : list nat * mchain 
         let t := triple_of p in
         if accepted then
           let k11 := fails (negb (existsb (triple_eqb t) (m_recvd m))) 11 in
+          let k21 := fails (match aget (c_receipt_key (p_src p) (p_dst p) (p_seq p)) before,
+                                  aget (c_receipt_key (p_src p) (p_dst p) (p_seq p)) after with
+                            | None, Some _ => true | _, _ => false end) 21 in
           let k15 := if bytes_eqb (p_dst p) (m_name m)
                      then fails (match aget (c_ack_key (p_src p) (p_dst p) (p_seq p)) before,
                                        aget (c_ack_key (p_src p) (p_dst p) (p_seq p)) after with
@@ -273,7 +279,7 @@ Definition mon_step (o : oracles) (m : mchain) (st : ostep) : list nat * mchain 
                                                           (p_src p) (p_dst p) (p_seq p) (t_sha o bz)) in
                                 fst r && snd r
                             | _, _ => false end) 19 in
-          (k11 ++ k15 ++ k19, t :: m_recvd m, m_acked m)
+          (k11 ++ k21 ++ k15 ++ k19, t :: m_recvd m, m_acked m)
         else ([], m_recvd m, m_acked m)
     | AAck msg _ _ _ =>
         let '(p, err) := t_decode o (am_packet msg) in
